@@ -409,6 +409,14 @@ def make_chart(seed):
     sanitize(sc)
     sc._preamble = 'x = 0\ny = 0\ng = %d\nc = 0' % rng.choice([4095, 4095, rng.getrandbits(12), rng.getrandbits(12)])
     diversify(rng, sc)
+    if rng.random() < 0.4:
+        # contracts that always hold and read what the step has sent so far (sent() is evaluated in the middle of a macro step):
+        # a condition that holds never changes a verdict
+        owners = [st for st in sc._states.values() if hasattr(st, 'preconditions') and type(st).__name__ in ('BasicState', 'CompoundState', 'OrthogonalState')]
+        for st in rng.sample(owners, min(3, len(owners))):
+            st.preconditions.append("sent('%s') or not sent('%s')" % ((rng.choice(['e0', 'e1', 'e2']),) * 2))
+        for t in rng.sample(list(sc._transitions), min(2, len(sc._transitions))):
+            t.postconditions.append("sent('e1') or not sent('e1')")
     return sc
 
 
